@@ -302,7 +302,7 @@ func (w *worker) sweepField(c *codec, s *seed, fi int, resumeAfter int, only *ui
 		}
 		if pan != "" || err != nil || !bytes.Equal(b2, b) {
 			w.viol(c, "field-reencode-differs:"+lf0.path, fmt.Sprintf("%s with %s = %s: encode(v) = %s but encode(decode(encode(v))) = %s (err=%v panic=%q)", c.name, lf0.path, lf0.show(raw), hexs(b, 64), hexs(b2, 64), err, pan), mkCase(raw))
-			continue
+			// fall through: F5 is still evaluated for this value
 		}
 		// m was handed to the encoder; decode once more for the comparison of F5
 		var pm any
